@@ -62,6 +62,12 @@ def make_problem(pdesc, log, jitter=None):
             import time
 
             time.sleep(jitter.get(idx, 0) / 1000.0)
+        if n == 0 and pdesc.get("form"):
+            # the number as a fitness function written with numpy returns it (uint8 sums of bit
+            # errors, float32 losses ...): the recorded value and aggregate are those of the NUMBER
+            from vk.values import as_form
+
+            return as_form(val, pdesc["form"])
         return val + 1000.0 * n
 
     if pdesc["kind"] == "single":
@@ -89,7 +95,9 @@ def make_problem(pdesc, log, jitter=None):
 @st.composite
 def problem_descs(draw, tag):
     if draw(st.booleans()):
-        return {"tag": tag, "kind": "single", "minimize": draw(st.booleans()), "agg": "default", "k": 1}
+        from vk.values import NUMBER_FORMS
+
+        return {"tag": tag, "kind": "single", "minimize": draw(st.booleans()), "agg": "default", "k": 1, "form": draw(st.sampled_from(NUMBER_FORMS))}
     k = draw(st.integers(2, 3))
     return {
         "tag": tag,
